@@ -4,6 +4,7 @@ import (
 	"fmt"
 	"go/ast"
 	"go/constant"
+	"go/parser"
 	"go/token"
 	"go/types"
 	"sort"
@@ -1494,4 +1495,270 @@ func g8PluginOrderFixed(r *Repo, rep *Report) {
 	if n == 0 {
 		rep.pass("G8")
 	}
+}
+
+// g8PrefixOpaque — "-prefix and -pluginprefix only rename": whether a run is carried out must not depend on how a prefix is
+// spelled. A prefix is the first part of a function name, never a name of its own: `go`, `map`, `min` or `copy` are fine
+// prefixes of goEqual, mapKeys, minOf and copyTo. The rule lists every condition in main and derive that reads a prefix value
+// (the -prefix flag, a value that reaches SetPrefix, the result of GetPrefix()/Prefix(), a field called prefix) outside the two
+// uses the property names — strings.HasPrefix(call name, prefix) in the dispatch and the ordering of two prefixes in the sort —
+// and reports it when one of its branches ends the run (a non-nil error return, log.Fatal, panic, os.Exit).
+func g8PrefixOpaque(r *Repo, rep *Report) {
+	sites, bad := 0, 0
+	for _, b := range r.bodies() {
+		if b.Pkg.Name != "derive" && b.Pkg.Name != "main" {
+			continue
+		}
+		if b.Lit != nil {
+			continue // literals are walked with their owner
+		}
+		info := b.Pkg.TypesInfo
+		// prefix-valued locals: arguments of SetPrefix and what is copied into them
+		pv := map[types.Object]bool{}
+		isPrefixCall := func(c *ast.CallExpr) bool {
+			fn, ok := callee(info, c).(*types.Func)
+			if !ok || fn.Pkg() == nil || !strings.HasSuffix(fn.Pkg().Path(), "/derive") {
+				return false
+			}
+			sig, _ := fn.Type().(*types.Signature)
+			return sig != nil && sig.Recv() != nil && (fn.Name() == "GetPrefix" || fn.Name() == "Prefix")
+		}
+		isFlagPrefix := func(e ast.Expr) bool {
+			st, ok := ast.Unparen(e).(*ast.StarExpr)
+			if !ok {
+				return false
+			}
+			id, ok := ast.Unparen(st.X).(*ast.Ident)
+			if !ok {
+				return false
+			}
+			v, ok := info.Uses[id].(*types.Var)
+			if !ok || v.Parent() != v.Pkg().Scope() {
+				return false
+			}
+			// var prefix = flag.String("prefix", …)
+			found := false
+			for _, f := range b.Pkg.Syntax {
+				ast.Inspect(f, func(m ast.Node) bool {
+					vs, ok := m.(*ast.ValueSpec)
+					if !ok {
+						return true
+					}
+					for i, n := range vs.Names {
+						if info.Defs[n] != v || i >= len(vs.Values) {
+							continue
+						}
+						if c, ok := vs.Values[i].(*ast.CallExpr); ok && len(c.Args) >= 1 {
+							if fn, ok := callee(info, c).(*types.Func); ok && fn.Pkg() != nil && fn.Pkg().Path() == "flag" && constIs(info, c.Args[0], "prefix") {
+								found = true
+							}
+						}
+					}
+					return true
+				})
+			}
+			return found
+		}
+		for changed := true; changed; {
+			changed = false
+			ast.Inspect(b.Block, func(m ast.Node) bool {
+				switch x := m.(type) {
+				case *ast.CallExpr:
+					if fn, ok := callee(info, x).(*types.Func); ok && fn.Name() == "SetPrefix" && len(x.Args) == 1 {
+						if id, ok := ast.Unparen(x.Args[0]).(*ast.Ident); ok && info.Uses[id] != nil && !pv[info.Uses[id]] {
+							pv[info.Uses[id]] = true
+							changed = true
+						}
+					}
+				case *ast.AssignStmt:
+					for i, l := range x.Lhs {
+						lid, ok := l.(*ast.Ident)
+						if !ok {
+							continue
+						}
+						lo := objOf(info, lid)
+						if lo == nil {
+							continue
+						}
+						var rhs ast.Expr
+						if len(x.Rhs) == len(x.Lhs) {
+							rhs = x.Rhs[i]
+						} else if len(x.Rhs) == 1 && i == 0 {
+							rhs = x.Rhs[0]
+						}
+						if rhs == nil {
+							continue
+						}
+						// backwards: what is copied into a prefix-valued variable is prefix-valued
+						if pv[lo] {
+							if rid, ok := ast.Unparen(rhs).(*ast.Ident); ok && info.Uses[rid] != nil && !pv[info.Uses[rid]] {
+								if _, isVar := info.Uses[rid].(*types.Var); isVar {
+									pv[info.Uses[rid]] = true
+									changed = true
+								}
+							}
+						}
+						// forwards: a variable that receives a prefix
+						if !pv[lo] {
+							if c, ok := ast.Unparen(rhs).(*ast.CallExpr); ok && isPrefixCall(c) {
+								pv[lo] = true
+								changed = true
+							} else if isFlagPrefix(rhs) {
+								pv[lo] = true
+								changed = true
+							} else if rid, ok := ast.Unparen(rhs).(*ast.Ident); ok && pv[info.Uses[rid]] {
+								pv[lo] = true
+								changed = true
+							}
+						}
+					}
+				}
+				return true
+			})
+		}
+		isPrefixValue := func(e ast.Expr) bool {
+			switch x := ast.Unparen(e).(type) {
+			case *ast.Ident:
+				return pv[info.Uses[x]]
+			case *ast.CallExpr:
+				return isPrefixCall(x)
+			case *ast.StarExpr:
+				return isFlagPrefix(x)
+			case *ast.SelectorExpr:
+				if sel, ok := info.Selections[x]; ok && sel.Kind() == types.FieldVal && x.Sel.Name == "prefix" {
+					return true
+				}
+			}
+			return false
+		}
+		// reads: a prefix value mentioned in the condition outside the two licensed contexts
+		var reads func(e ast.Expr) ast.Expr
+		reads = func(e ast.Expr) ast.Expr {
+			var hit ast.Expr
+			ast.Inspect(e, func(m ast.Node) bool {
+				if hit != nil {
+					return false
+				}
+				switch x := m.(type) {
+				case *ast.FuncLit:
+					return false
+				case *ast.CallExpr:
+					if fn, ok := callee(info, x).(*types.Func); ok && fn.Pkg() != nil && fn.Pkg().Path() == "strings" && fn.Name() == "HasPrefix" && len(x.Args) == 2 && isPrefixValue(x.Args[1]) {
+						if h := reads(x.Args[0]); h != nil {
+							hit = h
+						}
+						return false
+					}
+				case *ast.BinaryExpr:
+					// an ordering / equality between two prefixes (or their lengths)
+					strip := func(y ast.Expr) ast.Expr {
+						if c, ok := ast.Unparen(y).(*ast.CallExpr); ok && len(c.Args) == 1 {
+							if bi, ok := callee(info, c).(*types.Builtin); ok && bi.Name() == "len" {
+								return c.Args[0]
+							}
+						}
+						return y
+					}
+					if isPrefixValue(strip(x.X)) && isPrefixValue(strip(x.Y)) {
+						return false
+					}
+				}
+				if ex, ok := m.(ast.Expr); ok && isPrefixValue(ex) {
+					hit = ex
+					return false
+				}
+				return true
+			})
+			return hit
+		}
+		exits := func(n ast.Node) ast.Node {
+			var out ast.Node
+			if n == nil {
+				return nil
+			}
+			ast.Inspect(n, func(m ast.Node) bool {
+				if out != nil {
+					return false
+				}
+				switch x := m.(type) {
+				case *ast.FuncLit:
+					return false
+				case *ast.ReturnStmt:
+					if b.Sig != nil && b.Sig.Results().Len() > 0 && isErrorType(b.Sig.Results().At(b.Sig.Results().Len()-1).Type()) && len(x.Results) == b.Sig.Results().Len() && !isNilIdent(info, x.Results[len(x.Results)-1]) {
+						out = x
+					}
+				case *ast.CallExpr:
+					if isNoReturn(info, x) {
+						out = x
+					}
+				}
+				return true
+			})
+			return out
+		}
+		ast.Inspect(b.Block, func(m ast.Node) bool {
+			ifs, ok := m.(*ast.IfStmt)
+			if !ok {
+				return true
+			}
+			hit := reads(ifs.Cond)
+			if hit == nil {
+				return true
+			}
+			sites++
+			ex := exits(ifs.Body)
+			if ex == nil && ifs.Else != nil {
+				ex = exits(ifs.Else)
+			}
+			if ex == nil {
+				rep.pass("G8")
+				return true
+			}
+			bad++
+			rep.fail(Finding{Rule: "G8", Key: "G8|prefix-opaque|" + b.Name, Where: []string{r.pos(ifs.Cond.Pos()), r.pos(ex.Pos())},
+				Msg: fmt.Sprintf("%s ends the run depending on how a prefix is spelled (`%s` reads %s): a prefix is only the first part of the generated names — `go`, `map`, `min`, `copy` are prefixes of the valid names goEqual, mapKeys, minOf, copyTo — so a run with such a -prefix/-pluginprefix must yield the default run's functions renamed, not a refusal", b.Name, exprStr(ifs.Cond), exprStr(hit))})
+			return true
+		})
+	}
+	rep.analysed("conditions_reading_a_prefix", sites)
+	if bad == 0 {
+		rep.pass("G8")
+		// the rule's expected count is zero: a positive example evaluated on every run keeps it from passing vacuously
+		if !g8PrefixOpaqueSelfTest() {
+			rep.fail(Finding{Rule: "G8", Key: "G8|prefix-opaque|selftest", Kind: "undecided", Msg: "the built-in positive example of the prefix-opaque rule is no longer recognised"})
+		}
+	}
+}
+
+// g8PrefixOpaqueSelfTest parses a small main with `if !token.IsIdentifier(*prefix) { log.Fatal(…) }` and checks that the
+// syntactic core of the rule (a condition on the dereferenced flag guarding a fatal call) is found in it.
+func g8PrefixOpaqueSelfTest() bool {
+	src := "package main\nimport (\"flag\"; \"go/token\"; \"log\")\nvar prefix = flag.String(\"prefix\", \"derive\", \"\")\nfunc main() { if !token.IsIdentifier(*prefix) { log.Fatal(\"bad\") } }\n"
+	fset := token.NewFileSet()
+	f, err := parser.ParseFile(fset, "selftest.go", src, 0)
+	if err != nil {
+		return false
+	}
+	found := false
+	ast.Inspect(f, func(m ast.Node) bool {
+		ifs, ok := m.(*ast.IfStmt)
+		if !ok {
+			return true
+		}
+		readsFlag := nodeHas(ifs.Cond, func(k ast.Node) bool {
+			st, ok := k.(*ast.StarExpr)
+			if !ok {
+				return false
+			}
+			id, ok := st.X.(*ast.Ident)
+			return ok && id.Name == "prefix"
+		})
+		fatal := nodeHas(ifs.Body, func(k ast.Node) bool {
+			c, ok := k.(*ast.CallExpr)
+			return ok && exprStr(c.Fun) == "log.Fatal"
+		})
+		found = found || (readsFlag && fatal)
+		return true
+	})
+	return found
 }
